@@ -319,14 +319,23 @@ func runC20(p *core.Prog, r *core.Report) {
 		for _, gb := range goBodies(p, selFn) {
 			fn := gb.fn
 			sx.Instrs(fn, func(in ssa.Instruction) {
-				c, ok := in.(*ssa.Call)
-				if !ok {
+				var cc *ssa.CallCommon
+				var deferred *ssa.Defer
+				switch c := in.(type) {
+				case *ssa.Call:
+					cc = &c.Call
+				case *ssa.Defer:
+					if fn == selFn {
+						return // deferred by the waiting function itself (`defer cancel()`): runs after the wait
+					}
+					cc, deferred = &c.Call, c
+				default:
 					return
 				}
 				isClose := false
-				if b, ok := c.Call.Value.(*ssa.Builtin); ok && b.Name() == "close" {
+				if b, ok := cc.Value.(*ssa.Builtin); ok && b.Name() == "close" {
 					isClose = true
-				} else if !c.Call.IsInvoke() && cancelOf(c.Call.Value, gb.bind) != nil {
+				} else if !cc.IsInvoke() && cancelOf(cc.Value, gb.bind) != nil {
 					isClose = true // the exit channel is a cancellable context's Done()
 				}
 				if isClose {
@@ -337,8 +346,23 @@ func runC20(p *core.Prog, r *core.Report) {
 							wcut.Instrs[i2] = true
 						}
 					})
-					if len(wcut.Instrs) == 0 || !sx.MustPass(fn, nil, in, wcut) {
+					switch {
+					case len(wcut.Instrs) == 0:
 						okClose = false
+					case deferred == nil:
+						if !sx.MustPass(fn, nil, in, wcut) {
+							okClose = false
+						}
+					default:
+						// a deferred close runs when the goroutine's function returns: every path through the defer
+						// to a return crosses cmd.Wait, before the defer or after it
+						if !sx.MustPass(fn, nil, in, wcut) {
+							for _, ret := range sx.Returns(fn) {
+								if !sx.MustPass(fn, in, ret, wcut) {
+									okClose = false
+								}
+							}
+						}
 					}
 				}
 			})
@@ -911,16 +935,25 @@ func closedAfterWait(p *core.Prog, fn *ssa.Function, ch ssa.Value) bool {
 	found := false
 	for _, gb := range goBodies(p, fn) {
 		sx.Instrs(gb.fn, func(in ssa.Instruction) {
-			c, ok := in.(*ssa.Call)
-			if !ok {
+			// a call or a deferred call (`defer close(ch)` closes the channel when the goroutine's function returns)
+			var cc *ssa.CallCommon
+			switch c := in.(type) {
+			case *ssa.Call:
+				cc = &c.Call
+			case *ssa.Defer:
+				if gb.fn == fn {
+					return // a clean-up deferred by the waiting function itself runs after the wait: it releases nobody
+				}
+				cc = &c.Call
+			default:
 				return
 			}
 			// cancelling the context whose Done() the arm receives from closes that channel
-			if withCancel != nil && !c.Call.IsInvoke() && cancelOf(c.Call.Value, gb.bind) == withCancel {
+			if withCancel != nil && !cc.IsInvoke() && cancelOf(cc.Value, gb.bind) == withCancel {
 				found = true
 			}
-			if b, ok := c.Call.Value.(*ssa.Builtin); ok && b.Name() == "close" {
-				arg := sx.Unspill(c.Call.Args[0])
+			if b, ok := cc.Value.(*ssa.Builtin); ok && b.Name() == "close" {
+				arg := sx.Unspill(cc.Args[0])
 				if fv, ok := arg.(*ssa.FreeVar); ok {
 					if bnd := sx.FreeVarBinding(fv); bnd != nil {
 						arg = sx.Unspill(bnd)
